@@ -34,11 +34,25 @@ for p in sorted(byprop):
         w = e["what"]
         out.append(f"* `{e['key']}` — {w[:330]}{'…' if len(w) > 330 else ''} *Not repaired:* {e['why_not_fixed'][:220]}")
     out.append("")
+metas = [json.load(open(os.path.join(d, "meta.json"))) for d in sorted(glob.glob(os.path.join(ROOT, "seeded", "*"))) if os.path.exists(os.path.join(d, "meta.json"))]
+strengthened = lambda m: any(("only after" in c or "missed before" in c) for c in m.get("caught_by", []))
+n_not_own = sum(1 for m in metas if any("NOT caught" in c for c in m.get("caught_by", [])))
+n_after = sum(1 for m in metas if strengthened(m))
+n_as_stood = len(metas) - n_after - sum(1 for m in metas if not strengthened(m) and any("NOT caught" in c for c in m.get("caught_by", [])))
+SUMMARY = (f"Of the {len(metas)} stored changes, {n_as_stood} were caught by the checks as they stood, {n_after} only after a check had been "
+           f"strengthened; {n_not_own} of them is caught by the check of a neighbouring property but not by the check of the property it was "
+           f"written for (see its row).\n")
 out += ["## 10. Seeded changes and which checks catch them\n",
         "Each change was written by an independent sub-agent that saw only the property text and a scratch worktree, then confirmed by me\n"
         "(demo fails with / passes without the patch; the full test suite keeps every stable test passing) and kept under\n"
         "`/verif/seeded/<name>/` (`patch.diff`, `demo.py`, `meta.json`). \"Caught\" means: with the patch applied the named check exits 1 with\n"
         "VIOLATION lines that are not attributed to a known finding.\n",
+        "Three rounds were run: one change per property, a second one per property with the first one named as \"already studied\", and a\n"
+        "third one for the properties whose checks had missed a change before. A change that a check missed led to a wider generator or\n"
+        "a stronger oracle (never to a special case for the change); the \"Caught by\" column says which, and that the change was missed\n"
+        "before. `python3 tools/run_seeded.py` re-applies every stored patch to `/repo`, runs the named checks and undoes it; the last\n"
+        "outcome is in each `meta.json` (`applied_to_repo_run`).\n",
+        SUMMARY,
         "| Seeded change | Breaks | What it needs to manifest | Caught by |", "|---|---|---|---|"]
 for d in sorted(glob.glob(os.path.join(ROOT, "seeded", "*"))):
     mp = os.path.join(d, "meta.json")
